@@ -1,7 +1,409 @@
 package main
 
+import (
+	"bytes"
+	"fmt"
+	"os"
+	"os/exec"
+	"path/filepath"
+	"strings"
+	"text/template"
+
+	"verif/harness/sim"
+)
+
+// A genFamily is a parametrised grammar from which cancellable parsers are generated with
+// the current tree's `textmapper generate`, under options drawn per batch.
+type genFamily struct {
+	name       string
+	text       string // grammar with %OPTS% and %NAME% placeholders
+	recovery   bool   // has error rules => Parser.Init(eh, listener)
+	lookaheads bool
+	space      []string // token.Type names that are never shifted
+	prologue   string
+	sep        string
+	items      []string
+	// knobs this family may vary
+	knobs []string
+}
+
+const famStmts = `language %NAME%(go);
+
+lang = "%NAME%"
+package = "github.com/inspirer/textmapper/zzverif/gen/%NAME%"
+eventBased = true
+cancellable = true
+%OPTS%
+
+:: lexer
+
+ws: /[ \t\r\n]+/ (space)
+comment: /#[^\n]*/ (space)
+invalid_token:
+error:
+id: /[a-zA-Z_][a-zA-Z_0-9]*/ (class)
+'print': /print/
+'if': /if/
+num: /[0-9]+/
+'=': /=/
+'+': /\+/
+'*': /\*/
+'(': /\(/
+')': /\)/
+'{': /\{/
+'}': /\}/
+',': /,/
+';': /;/
+
+:: parser
+
+%input File;
+
+%inject comment -> Comment;
+%inject invalid_token -> InvalidToken;
+
+%left '+';
+%left '*';
+
+File -> File: Stmt+ ;
+
+Stmt -> Stmt:
+    id '=' Expr ';'             -> Assign
+  | 'print' Expr ';'            -> Print
+  | '{' Stmt* '}'               -> Block
+  | 'if' '(' Expr ')' Stmt      -> If
+  | error ';'                   -> Broken
+;
+
+Expr -> Expr:
+    Expr '+' Expr               -> Add
+  | Expr '*' Expr               -> Mul
+  | '(' Expr ')'                -> Paren
+  | id                          -> Ref
+  | num                         -> Num
+  | id '(' (Expr separator ',')* ')'   -> Call
+;
+`
+
+// chained lookaheads: the generated lookaheadRule/applyRule try predicates one after the
+// other; nested ones make the lookahead sub-parser recursive.
+const famLookahead = `language %NAME%(go);
+
+lang = "%NAME%"
+package = "github.com/inspirer/textmapper/zzverif/gen/%NAME%"
+eventBased = true
+cancellable = true
+recursiveLookaheads = true
+%OPTS%
+
+:: lexer
+
+ws: /[ \t\r\n]+/ (space)
+id: /[a-zA-Z_][a-zA-Z_0-9]*/
+num: /[0-9]+/
+'(': /\(/
+')': /\)/
+'[': /\[/
+']': /\]/
+',': /,/
+';': /;/
+'=>': /=>/
+
+:: parser
+
+%input File;
+
+File -> File: Item+ ;
+
+Item -> Item:
+    (?= IsTriple) '(' num ',' num ',' num ')' ';'                     -> Triple
+  | (?= !IsTriple & IsPair) '(' num ',' num ')' ';'                   -> Pair
+  | (?= !IsTriple & !IsPair & IsArrow) '(' Params ')' '=>' id ';'     -> Arrow
+  | (?= !IsTriple & !IsPair & !IsArrow) '(' Nested ')' ';'            -> Paren
+  | id ';'                                                            -> Name
+;
+
+Params -> Params: (id separator ',')* ;
+
+Nested -> Nested:
+    id
+  | (?= IsArrow) '(' Params ')' '=>' id
+  | (?= !IsArrow) '(' Nested ')'
+  | '[' (Nested separator ',')+ ']'
+;
+
+IsPair: '(' num ',' ;
+IsTriple: '(' num ',' num ',' ;
+IsArrow: '(' Params ')' '=>' ;
+`
+
+// lookaheads + error recovery
+const famLookaheadRecover = `language %NAME%(go);
+
+lang = "%NAME%"
+package = "github.com/inspirer/textmapper/zzverif/gen/%NAME%"
+eventBased = true
+cancellable = true
+recursiveLookaheads = true
+%OPTS%
+
+:: lexer
+
+ws: /[ \t\r\n]+/ (space)
+invalid_token:
+error:
+id: /[a-zA-Z_][a-zA-Z_0-9]*/
+num: /[0-9]+/
+'(': /\(/
+')': /\)/
+'<': /</
+'>': />/
+',': /,/
+';': /;/
+'=': /=/
+
+:: parser
+
+%input File;
+
+%inject invalid_token -> InvalidToken;
+
+File -> File: Decl+ ;
+
+Decl -> Decl:
+    id '=' Value ';'                                       -> Let
+  | error ';'                                              -> Broken
+;
+
+Value -> Value:
+    (?= IsGenericCall) id '<' (Type separator ',')+ '>' '(' Args ')'   -> GenericCall
+  | (?= !IsGenericCall & IsCall) id '(' Args ')'                       -> Call
+  | (?= !IsGenericCall & !IsCall) id ('<' id)? ('>' id)?               -> Compare
+  | num                                                                -> Num
+;
+
+Args -> Args: (Value separator ',')* ;
+
+Type -> Type: id ('<' (Type separator ',')+ '>')? ;
+
+IsGenericCall: id '<' (Type separator ',')+ '>' '(' ;
+IsCall: id '(' ;
+`
+
+var genFamilies = []*genFamily{
+	{
+		name: "stmts", text: famStmts, recovery: true, space: []string{"COMMENT", "INVALID_TOKEN"},
+		sep: "\n",
+		items: []string{
+			"a = 1;", "b = a + 2 * c;", "print a;", "print (a + b) * c;", "{ a = 1; b = 2; }", "if (a) b = 1;", "if (a + 1) { print b; }",
+			"x = f(1, 2, g(3));", "y = f();", "# comment", "z = ((((1))));", "{ }", "{ { { print 1; } } }", "w = a * b * c + d * e + f;",
+		},
+		knobs: []string{"optimizeTables", "fixWhitespace", "tokenLine", "tokenStream", "cancellableFetch"},
+	},
+	{
+		name: "lookahead", text: famLookahead, lookaheads: true,
+		sep: "\n",
+		items: []string{
+			"(1, 2, 3);", "(1, 2);", "(a, b) => c;", "() => d;", "(a);", "((a));", "((a, b) => c);", "([a, (b), (c) => d]);", "(((() => x)));", "name;",
+			"([a, [b, [c]]]);", "(x) => y;",
+		},
+		knobs: []string{"optimizeTables", "cancellableFetch", "tokenLine"},
+	},
+	{
+		name: "larecover", text: famLookaheadRecover, recovery: true, lookaheads: true, space: []string{"INVALID_TOKEN"},
+		sep: "\n",
+		items: []string{
+			"a = b;", "a = 1;", "a = f(1, 2);", "a = f();", "a = g<T>(x);", "a = g<T, U<V>>(f(1), h<W>());", "a = b < c;", "a = b < c > d;", "a = b > c;",
+			"a = f(g<T>(1), b < c);",
+		},
+		knobs: []string{"optimizeTables", "cancellableFetch", "tokenStream", "fixWhitespace"},
+	},
+}
+
+var adapterTmpl = template.Must(template.New("adapter").Parse(`// generated by /verif/driver for the cancelsim batch; DO NOT EDIT
+
+package {{.Name}}
+
+import (
+	"context"
+
+	"github.com/inspirer/textmapper/zzverif/gen/{{.Name}}/token"
+)
+
+// ZZParse drives the generated parser through its public API.
+func ZZParse(ctx context.Context, in string, ev func(t, flags, off, end int), eh func(line, off, end int) bool) error {
+	l := func(t NodeType, off, end int) { ev(int(t), 0, off, end) }
+{{- if .TokenStream}}
+	var s TokenStream
+	s.Init(in, l)
+{{- else}}
+	var lx Lexer
+	lx.Init(in)
+{{- end}}
+	var p Parser
+{{- if .Recovery}}
+	p.Init(func(se SyntaxError) bool { return eh({{if .TokenLine}}se.Line{{else}}0{{end}}, se.Offset, se.Endoffset) }, l)
+{{- else}}
+	p.Init(l)
+{{- end}}
+	return p.Parse(ctx, {{if .TokenStream}}&s{{else}}&lx{{end}})
+}
+
+// ZZTokenEnds lexes in with the generated lexer alone; tokens that are never shifted are left out.
+func ZZTokenEnds(in string) []int {
+	var lx Lexer
+	lx.Init(in)
+	var ends []int
+	for t := lx.Next(); t != token.EOI; t = lx.Next() {
+{{- if .Space}}
+		switch t {
+		case {{.Space}}:
+			continue
+		}
+{{- end}}
+		_, e := lx.Pos()
+		ends = append(ends, e)
+	}
+	return ends
+}
+`))
+
+type genInstance struct {
+	Name        string
+	Family      *genFamily
+	Opts        map[string]bool
+	TokenStream bool
+	TokenLine   bool
+	Recovery    bool
+	Space       string
+	Desc        string
+}
+
 // generateBatch generates a batch of fresh cancellable parsers with the current tree's
-// generator and adds them (plus a registry file) to the overlay. Filled in below.
+// generator and adds them (plus a registry file) to the overlay. A grammar the current tree
+// rejects, or whose generated package does not build, is skipped and counted: that would be
+// C17, which this technique does not decide.
 func generateBatch(cfg *config, ov *overlay, info map[string]any) error {
+	tmbin := filepath.Join(cfg.scratch, "textmapper.bin")
+	if _, err := goRun(cfg.repo, "build", "-o", tmbin, "./cmd/textmapper"); err != nil {
+		return fmt.Errorf("building the current tree's textmapper: %w", err)
+	}
+	src := sim.NewSearch(cfg.seed, 0x67656e) // batch options come from the seed too
+	n := 6
+	if cfg.tier == "thorough" {
+		n = 12
+	}
+	var insts []*genInstance
+	var skipped []string
+	for i := 0; i < n; i++ {
+		fam := genFamilies[i%len(genFamilies)]
+		in := &genInstance{Name: fmt.Sprintf("g%02d", i+1), Family: fam, Opts: map[string]bool{}, Recovery: fam.recovery, TokenLine: true}
+		var opts []string
+		var on []string
+		for _, k := range fam.knobs {
+			v := src.Chance(1, 2)
+			if i < len(genFamilies) && k != "tokenLine" {
+				v = false // the first instance of each family is the plain configuration
+			}
+			if i < len(genFamilies) && k == "tokenLine" {
+				v = true
+			}
+			in.Opts[k] = v
+			opts = append(opts, fmt.Sprintf("%s = %v", k, v))
+			if v {
+				on = append(on, k)
+			}
+			switch k {
+			case "tokenStream":
+				in.TokenStream = v
+			case "tokenLine":
+				in.TokenLine = v
+			}
+		}
+		var sp []string
+		for _, s := range fam.space {
+			sp = append(sp, "token."+s)
+		}
+		in.Space = strings.Join(sp, ", ")
+		in.Desc = fmt.Sprintf("gen/%s[%s:%s]", in.Name, fam.name, strings.Join(on, ","))
+		dir := filepath.Join(cfg.scratch, "gen", in.Name)
+		if err := os.MkdirAll(dir, 0o755); err != nil {
+			return err
+		}
+		text := strings.ReplaceAll(strings.ReplaceAll(fam.text, "%NAME%", in.Name), "%OPTS%", strings.Join(opts, "\n"))
+		gpath := filepath.Join(dir, in.Name+".tm")
+		if err := os.WriteFile(gpath, []byte(text), 0o644); err != nil {
+			return err
+		}
+		cmd := exec.Command(tmbin, "generate", "-o", dir, gpath)
+		if out, err := cmd.CombinedOutput(); err != nil {
+			skipped = append(skipped, fmt.Sprintf("%s: generate failed: %s", in.Desc, tail(string(out), 3)))
+			continue
+		}
+		var buf bytes.Buffer
+		if err := adapterTmpl.Execute(&buf, in); err != nil {
+			return err
+		}
+		if err := os.WriteFile(filepath.Join(dir, "zz_adapter.go"), buf.Bytes(), 0o644); err != nil {
+			return err
+		}
+		insts = append(insts, in)
+	}
+
+	// build check per package so that one broken variant does not take the batch down
+	var good []*genInstance
+	for _, in := range insts {
+		o := newOverlay()
+		addGenerated(cfg, o, in)
+		p := filepath.Join(cfg.scratch, "ov-"+in.Name+".json")
+		if err := o.write(p); err != nil {
+			return err
+		}
+		if _, err := goRun(cfg.repo, "build", "-overlay", p, "./zzverif/gen/"+in.Name+"/..."); err != nil {
+			skipped = append(skipped, fmt.Sprintf("%s: generated package does not build: %s", in.Desc, tail(err.Error(), 4)))
+			continue
+		}
+		good = append(good, in)
+	}
+	var reg bytes.Buffer
+	reg.WriteString("// generated by /verif/driver; DO NOT EDIT\n\npackage main\n\n")
+	if len(good) > 0 {
+		reg.WriteString("import (\n")
+		for _, in := range good {
+			fmt.Fprintf(&reg, "\t%s \"github.com/inspirer/textmapper/zzverif/gen/%s\"\n", in.Name, in.Name)
+		}
+		reg.WriteString(")\n\n")
+	}
+	reg.WriteString("func initGenerated() {\n")
+	var names []string
+	for _, in := range good {
+		addGenerated(cfg, ov, in)
+		fmt.Fprintf(&reg, "\tregisterGenerated(%q, %s.ZZParse, %s.ZZTokenEnds, &corpus{prologue: %q, sep: %q, items: %#v}, %v, %v)\n",
+			in.Desc, in.Name, in.Name, in.Family.prologue, in.Family.sep, in.Family.items, in.Recovery, in.Family.lookaheads)
+		names = append(names, in.Desc)
+	}
+	reg.WriteString("}\n")
+	regPath := filepath.Join(cfg.scratch, "registry_gen.go")
+	if err := os.WriteFile(regPath, reg.Bytes(), 0o644); err != nil {
+		return err
+	}
+	ov.Replace[filepath.Join(cfg.repo, "zzverif", "cancelsim", "registry.go")] = regPath
+	info["generated_parsers"] = names
+	info["generated_parsers_skipped"] = skipped
+	if len(good) == 0 {
+		info["generated_parsers_note"] = "no generated parser could be built from the current tree; only the shipped parsers were simulated"
+	}
 	return nil
+}
+
+func addGenerated(cfg *config, ov *overlay, in *genInstance) {
+	root := filepath.Join(cfg.scratch, "gen", in.Name)
+	filepath.Walk(root, func(path string, fi os.FileInfo, err error) error {
+		if err != nil || fi.IsDir() || !strings.HasSuffix(path, ".go") {
+			return nil
+		}
+		rel, _ := filepath.Rel(root, path)
+		ov.Replace[filepath.Join(cfg.repo, "zzverif", "gen", in.Name, rel)] = path
+		return nil
+	})
 }
